@@ -177,6 +177,7 @@ pub enum DirectiveLocation {
     InlineFragment,
     VariableDefinition,
 
+    Schema,
     Scalar,
     Object,
     FieldDefinition,
